@@ -373,6 +373,20 @@ def run_case(item):
                     os.chdir(root)
                 oracle.append([] if spec is None or not spec.origin else [pj.comps(os.path.dirname(spec.origin))])
             out['oracle_import'] = oracle
+        # -- after use: the settings are still the constructor's, also through a second save/load
+        ev['p2'] = [pj.attrs(proj)]
+        rt2 = {'save': 'ok', 'load': '-', 'q': []}
+        if item.get('with_rt', True) and rt['save'] == 'ok' and rt['load'] == 'ok':
+            try:
+                proj.save()
+                q2 = jedi.Project.load(os.path.abspath(str(ppath)))
+                rt2['load'] = 'ok'
+                rt2['q'] = pj.attrs(q2)
+            except Exception as e:   # noqa
+                rt2['save'] = type(e).__name__
+            ev['rt2'] = [rt2]
+        else:
+            ev['rt2'] = []
         out['event'] = ev
 
         # -- discovery of the saved project from the script's directory
@@ -508,7 +522,7 @@ def corpus_event(arg):
     a = {'path': {'sp': pj.sp(pdir), 'isPath': False}, 'envp': [], 'sysp': [], 'added': [], 'smart': smart,
          'unsafe': False}
     ev = {'t': 'case', 'args': a, 'explicit': False, 'env': [pj.sp(x) for x in env.get_sys_path()],
-          'script': [pj.comps(path)], 'initDirs': inits, 'p': pj.attrs(proj), 'rt': [],
+          'script': [pj.comps(path)], 'initDirs': inits, 'p': pj.attrs(proj), 'rt': [], 'p2': [pj.attrs(proj)], 'rt2': [],
           'R0': [pj.sp(x) for x in R[0]], 'R1': [pj.sp(x) for x in R[1]], 'R2': [pj.sp(x) for x in R[2]], 'wins': []}
     return {'event': ev, 'concrete': {'path': path, 'project': pdir, 'R0': R[0]}}
 
